@@ -208,7 +208,8 @@ META = dict(
     level="proof", lean_files=["lemmas/Sums.lean"], assumptions=["A1", "A2", "A6", "A7", "A9"],
     trusted=["estimator protocol: predict_proba of a fitted binary classifier is a deterministic row-wise function with two columns",
              "boolean-mask gather/scatter lemmas (rank/unrank); ghost functions P / onpath are defined by their one-level unfolding (induction on subtree height)"],
-    not_applicable=["fit_improve (intercept search), rows summing to one (property of the member classifiers): bounded stand-in.  enumerate_leaves_index "
+    not_applicable=["which intercept fit_improve chooses (a search over a likelihood - only that the probabilities it returns are those of the classifier as "
+                    "it is at return is proved; scipy's logistic function is assumed to map arrays element-wise), rows summing to one (property of the member classifiers): bounded stand-in.  enumerate_leaves_index "
                     "(recursive generator): proved on five tree shapes (bounded in the shape, complete in the node indices), sorted() in get_leaves_index "
                     "is the bounded stand-in's.  Proved about fit: the recursive node fit (real closure _fit_side, real recursion with a "
                     "decreases clause max_depth - depth) builds a WELL-NUMBERED subtree - every index in [index, returned value], parents before children, "
@@ -258,12 +259,55 @@ def fit_unfold(E, n, max_depth):
     return okF(pid) == z3.And(*conj)
 
 
-@contract(F + "::_DecisionTreeLogisticRegressionNode.fit_improve", "C10", assumed=True)
+@contract(F + "::_DecisionTreeLogisticRegressionNode.fit_improve", "C10")
 class FitImprove(Contract):
-    """ASSUMED (intercept search of a linear classifier): returns the (n, 2) probabilities of the node's classifier"""
+    """the probabilities it returns are those of the node's classifier AS IT IS AT RETURN on the rows given (the split that follows uses
+    them; prediction later asks the same classifier): n rows, two columns; when the intercept of a linear classifier is moved, the
+    probabilities are computed again afterwards.  Features and labels are not written."""
+    variants = [(algo, linear) for algo in ("none", "auto", "intercept_sort_always") for linear in (True, False) if not (algo == "intercept_sort_always" and not linear)]
+    loop_kinds = {0: {"best": "real", "besti": "int", "beta_best": "real", "beta": "real", "like": "real", "w": "real"}}
+    # the search loop only chooses a number (the new intercept): nothing about WHICH one is claimed, so no fact has to be carried through it
+    loops = {0: lambda E, L: {"the_rows_are_still_all_there": z(L["N"]) == z(L["X"].shape[0]),
+                              "best_value_position_and_intercept_are_set_together": z3.BoolVal(
+                                  (L["besti"] is None) == (L["best"] is None) and (L["besti"] is None) == (L["beta_best"] is None))}}
+    max_paths = 20000
+
+    def setup(self, E, v):
+        algo, linear = v
+        n, d = E.size("n", 1), E.size("d", 1)
+        est = models.new_estimator(E, "node_clf", methods=ESTM, fitted=True,
+                                   bases=("BaseEstimator", "ClassifierMixin") + (("LinearClassifierMixin",) if linear else ()))
+        est.fields["$width_predict_proba"] = 2
+        if linear:
+            est.fields["coef_"] = E.nd("coef", (1, d))
+            est.fields["intercept_"] = E.real("intercept")
+        nd = E.new_obj(F + "::_DecisionTreeLogisticRegressionNode",
+                       dict(index=E.int("index"), estimator=est, above=None, below=None, threshold=E.real("threshold"), depth=E.int("depth")))
+        dt = _dtlr(E)
+        dt.fields["fit_improve_algo"] = algo
+        return dict(self=nd, dtlr=dt, total_N=E.int("total_N"), X=E.nd("X", (n, d)), y=E.nd("y", (n,), "int"), sample_weight=None)
+
+    def requires(self, E, a):
+        return {"one_label_per_row": z(a.y.shape[0]) == z(a.X.shape[0]), "total_positive": z(a.total_N) >= 1,
+                "min_samples_leaf_non_negative": z(a.dtlr.fields["min_samples_leaf"]) >= 0}
+
+    def old(self, E, a):
+        return dict(tl=len(E.trace), wX=a.X.cell.writes, wy=a.y.cell.writes, callsite=a.get("_callsite"))
 
     def result(self, E, a, old):
         return NdArr.fresh("prob", (a.X.shape[0], 2), "real")
+
+    def ensures(self, E, a, res, old):
+        ok = isinstance(res, NdArr) and res.ndim == 2
+        out = {"n_rows_two_columns": z3.BoolVal(False) if not ok else z3.And(z(res.shape[0]) == z(a.X.shape[0]), z(res.shape[1]) == 2)}
+        est = a.self.fields["estimator"]
+        calls = [t for t in E.trace[old["tl"]:] if t["op"] == "predict_proba" and t["obj"] is est]
+        if calls:      # (at a call site the summary above is all that is assumed)
+            last = calls[-1]
+            out["probabilities_of_the_classifier_as_it_is_at_return_on_the_given_rows"] = z3.BoolVal(
+                last["X"] is a.X and z3.eq(last["state"], est.fields["$state"]) and res is last["result"])
+            out["features_and_labels_not_written"] = z3.BoolVal(a.X.cell.writes == old["wX"] and a.y.cell.writes == old["wy"])
+        return out
 
 
 @contract(F + "::_DecisionTreeLogisticRegressionNode.fit", "C10")
@@ -287,7 +331,8 @@ class NodeFit(Contract):
         s = a.self
         return {"node_not_deeper_than_max_depth": z3.And(z(s.fields["depth"]) >= 1, z(s.fields["depth"]) <= z(a.dtlr.fields["max_depth"])),
                 "a_fresh_node_without_children": z3.BoolVal(s.fields.get("above") is None and s.fields.get("below") is None),
-                "one_label_per_row": z(a.y.shape[0]) == z(a.X.shape[0]), "total_positive": z(a.total_N) >= 1}
+                "one_label_per_row": z(a.y.shape[0]) == z(a.X.shape[0]), "total_positive": z(a.total_N) >= 1,
+                "valid_configuration_min_samples_leaf_non_negative": z(a.dtlr.fields["min_samples_leaf"]) >= 0}
 
     def decreases(self, E, a):
         return z(a.dtlr.fields["max_depth"]) - z(a.self.fields["depth"])
@@ -345,6 +390,9 @@ class FitParallel(Contract):
         s = _dtlr(E)
         s.fields["classes_"] = E.nd("classes", (2,), "int")
         return dict(self=s, X=E.nd("X", (n, E.size("d", 1))), y=E.nd("y", (n,), "int"), sample_weight=E.nd("w", (n,)) if has_w else None)
+
+    def requires(self, E, a):
+        return {"valid_configuration_min_samples_leaf_non_negative": z(a.self.fields["min_samples_leaf"]) >= 0}
 
     def ensures(self, E, a, res, old):
         s = a.self
